@@ -814,6 +814,30 @@ def e_struct_swap(d):
     d["files"][0]["structs"].reverse()
 
 
+# a rename / rename_all that spells out what would apply anyway - or that opts one member out of the container rule
+def e_rename_own_field(d):
+    """#[serde(rename = "<the Rust name itself>")] on a field (opts it out of rename_all / defaultFieldCase)"""
+    _toggle(_struct(d, "User")["fields"][0], "rename", None, _struct(d, "User")["fields"][0]["name"])
+
+
+def e_rename_own_variant(d):
+    _toggle(_struct(d, "Status")["fields"][0], "rename", None, _struct(d, "Status")["fields"][0]["name"])
+
+
+def e_enum_rename_all(d):
+    _toggle(_struct(d, "Status"), "rename_all", None, "snake_case")
+
+
+def e_cmd_rename_all_camel(d):
+    """rename_all = "camelCase" on a command: the default convention spelled out (matters under another defaultParameterCase)"""
+    _toggle(d["files"][0]["commands"][0], "rename_all", None, "camelCase")
+
+
+def e_serde_rename_all_snake(d):
+    """rename_all = "snake_case" on a struct: the default field convention spelled out"""
+    _toggle(_struct(d, "User"), "rename_all", None, "snake_case")
+
+
 def e_force(d):
     """force: true in the configuration file"""
     _toggle(d["cfg"], "force", None, True)
@@ -836,7 +860,9 @@ EDITS = {
     "variant_rename": e_variant_rename, "validator": e_validator, "event_name": e_event_name,
     "event_payload": e_event_payload, "event_add": e_event_add, "events_off": e_events_off, "event_site2": e_event_site2, "channel": e_channel, "mode": e_mode,
     "type_mapping": e_type_mapping, "param_case": e_param_case, "field_case": e_field_case,
-    "visualize": e_visualize, "noise": e_noise, "cmd_swap": e_cmd_swap, "param_swap": e_param_swap, "field_swap": e_field_swap, "variant_swap": e_variant_swap,
+    "visualize": e_visualize, "noise": e_noise, "rename_own_field": e_rename_own_field, "rename_own_variant": e_rename_own_variant, "enum_rename_all": e_enum_rename_all,
+    "cmd_rename_all_camel": e_cmd_rename_all_camel, "serde_rename_all_snake": e_serde_rename_all_snake,
+    "cmd_swap": e_cmd_swap, "param_swap": e_param_swap, "field_swap": e_field_swap, "variant_swap": e_variant_swap,
     "channel_swap": e_channel_swap, "event_swap": e_event_swap, "struct_swap": e_struct_swap, "cmd_move": e_cmd_move, "unused_struct": e_unused_struct, "map_target": e_map_target, "map_add": e_map_add, "include_private": e_include_private,
 }
 
